@@ -105,6 +105,11 @@ def iparse_number_array(arr):
     return iparse_number_array_aux(arr)
 
 
+def wildcard_match(text, pattern):
+    """ * and ? are the only wildcards: fnmatch's character classes ([seq], [!seq]) are switched off """
+    return fnmatch.fnmatch(text, pattern.replace('[', '[[]'))
+
+
 def parse_criteria(criteria):
     if not isinstance(criteria, string_types):
         # a bare value that is not text (a number, a logical): equality with it (a logical equals no number)
@@ -118,8 +123,7 @@ def parse_criteria(criteria):
         return lambda a: op(a, val)
     else:
         if any(c in val for c in ('?', '*')):
-            # Then use fnmatch
-            return lambda a: isinstance(a, string_types) and fnmatch.fnmatch(a, val)
+            return lambda a: isinstance(a, string_types) and wildcard_match(a, val)
         else:
             return lambda a: a == to_number(val)
 
